@@ -711,3 +711,8 @@ from harness.mixins import add_family as _add_family    # noqa: E402
 _add_family(globals(), _df, 'dynflow', _df.oracle, share=0.15)
 from harness import deadwriter as _dw                   # noqa: E402
 _add_family(globals(), _dw, 'deadwriter', _dw.oracle, share=0.08)
+
+
+# parallel processes and steps generated at run time, then moved: the hierarchy holds what the engine runs
+from harness import parstruct as _ps                    # noqa: E402
+_add_family(globals(), _ps, 'parstruct', _ps.oracle, share=0.03)
